@@ -347,6 +347,8 @@ fn cross<X: Real, Y: Real>(terms: &[ATerm], simple: &[SimpleTerm<'static>], st: 
             out.push(Violation::new(format!("{sig}:{}:{}", X::NAME, Y::NAME), detail, json!({"left_type": X::NAME, "right_type": Y::NAME, "left": terms[i].nq(), "right": terms[j].nq()})));
         }
     };
+    // observed classes (vacuity guard): same term written alike / differently, ordered either way
+    let mut seen_classes = [false; 4];
     for (i, x) in &xs {
         // the realisation denotes the abstract term it was made from
         let mx = ATerm::from_term(x.borrow_term());
@@ -373,6 +375,7 @@ fn cross<X: Real, Y: Real>(terms: &[ATerm], simple: &[SimpleTerm<'static>], st: 
                     continue;
                 }
             };
+            seen_classes[if model_eq { if i == j { 0 } else { 1 } } else if c1 == Ordering::Less { 2 } else { 3 }] = true;
             if e1 != model_eq || e2 != model_eq {
                 push("eq", format!("{pair}: eq({}, {}) = {e1}, reverse = {e2}, same RDF term = {model_eq}", terms[*i].nq(), terms[*j].nq()), *i, *j);
             }
@@ -405,6 +408,11 @@ fn cross<X: Real, Y: Real>(terms: &[ATerm], simple: &[SimpleTerm<'static>], st: 
         }
     }
     st.add(&format!("pairs[{pair}]"), (xs.len() * ys.len()) as u64);
+    for (k, name) in ["same-term-same-spelling", "same-term-different-spelling", "ordered-less", "ordered-greater"].iter().enumerate() {
+        if seen_classes[k] {
+            st.outcome(name);
+        }
+    }
 }
 
 /// conversions of every realisation of X into the other provided term types
